@@ -9,12 +9,13 @@ channels one at a time in every order, and by other spellings, must give bitwise
 """
 import itertools
 import json
+import zlib
 import os
 import warnings
 
 import numpy as np
 
-from harness import core, tlc, fcsgen
+from harness import core, tlc, fcsgen, loadform
 from harness.core import run_driver
 
 import FlowCal.io  # noqa
@@ -44,15 +45,31 @@ class World(object):
     def __init__(self):
         self.dir = tlc.scratch('c03_')
         self.objs = {}
+        # the SAME recorded settings in four dialects (what different acquisition programs write): the law depends on the
+        # settings, not on their spelling.  0 plain; 1 fixed six decimals, blank after the comma; 2 a FlowJo Collector's
+        # Edition file that carries the standard gain keyword; 3 the same program's own gain keyword only
         for cont in ('sample', 'sample-nogain'):
-            path = os.path.join(self.dir, cont + '.fcs')
-            fcsgen.write_sample(path, EVENTS, ['c1', 'c2', 'c3'], R, bits=16,
-                                pne=['4,1', '0,0' if cont == 'sample' else '2.5,0', '0,0'],
-                                png=[None, None, '4' if cont == 'sample' else None], pnv=['400', '500', '600'],
-                                pns=['A', 'B', 'C'])
-            with warnings.catch_warnings():
-                warnings.simplefilter('ignore')
-                self.objs[cont] = FlowCal.io.FCSData(path)
+            for d in range(4):
+                path = os.path.join(self.dir, '%s%d.fcs' % (cont, d))
+                pne = ['4,1', '0,0' if cont == 'sample' else '2.5,0', '0,0']
+                gain = '4' if cont == 'sample' else None
+                extra = []
+                if d == 1:
+                    pne = ['4.000000, 1.000000', '0.000000,0.000000' if cont == 'sample' else '2.500000,0.000000', '0.0,0.0']
+                    gain = gain and '4.000000'
+                if d >= 2:
+                    extra = [('CREATOR', 'FlowJoCollectorsEdition 7.5.110.7')]
+                if d == 3 and gain:
+                    extra += [('CytekP01G', '1.0'), ('CytekP02G', '1.0'), ('CytekP03G', '4.0')]
+                    gain = None
+                fcsgen.write_sample(path, EVENTS, ['c1', 'c2', 'c3'], R, bits=16, pne=pne, png=[None, None, gain],
+                                    pnv=['400', '500', '600'], pns=['A', 'B', 'C'], extra=extra)
+                with warnings.catch_warnings():
+                    warnings.simplefilter('ignore')
+                    self.objs[(cont, d)] = FlowCal.io.FCSData(loadform.arg(path))
+            self.objs[cont] = self.objs[(cont, 0)]
+        # (conf_C06) two columns carrying one name: told apart by position only
+        self.objs['sample-dupname'] = self.objs['sample'][:, ['c1', 'c2', 'c1']]
         self.objs['array'] = np.array(EVENTS, dtype=np.int64)
         self.objs['array-float'] = np.array(EVENTS, dtype=np.float64)
         path = os.path.join(self.dir, 'double.fcs')
@@ -62,8 +79,8 @@ class World(object):
             warnings.simplefilter('ignore')
             self.objs['sample-double'] = FlowCal.io.FCSData(path)
 
-    def fresh(self, cont):
-        return self.objs[cont]
+    def fresh(self, cont, k=0):
+        return self.objs.get((cont, k % 4), self.objs[cont])
 
 
 def fingerprint(x):
@@ -145,7 +162,7 @@ def work(item):
     W = WORLD
     cont, f, at, ag, rs = st['scn']
     exp = st['out']
-    x = W.fresh(cont)
+    x = W.fresh(cont, zlib.crc32(json.dumps(st['scn']).encode()))
     before = fingerprint(x)
     kw = dict(channels=render_ch(f), amplification_type=render_arg('at', at), amplifier_gain=render_arg('ag', ag),
               resolution=render_arg('res', rs))
